@@ -1255,6 +1255,14 @@ class Step(Node):
             )
         )
         self.db.executemany("DELETE FROM dynamic_dep WHERE i = ?", ((row[0],) for row in rows))
+        # The steps that produce the dropped inputs lose a consumer.
+        # No trigger notices that, because the deleted edges connect a file to this step,
+        # so their _implied_need and _tail_time must be flagged for recomputation here.
+        self.db.executemany(
+            "UPDATE step SET _check_after = 1 "
+            "WHERE node IN (SELECT source FROM dependency WHERE sink = ?)",
+            ((i,) for _, i, _, _ in rows),
+        )
         self.del_sources([self.graph.node_from_row(i, kind, label) for _, i, label, kind in rows])
 
         # Drop dynamic environment variables.
